@@ -28,8 +28,8 @@ def modes(f, shard):
 
     if hasattr(f, "walk_modes"):
         for m in f.walk_modes(small=shard["small"]):
-            if f.name.startswith("modesense") and m[3] != 0:
-                continue
+            if f.name.startswith("modesense") and (m[3] if m[0] == "page" else m[2]) != 0:
+                continue  # the library's dictionaries have no place for block descriptors
             yield m
     if f.name in ("getlbastatus", "reportluns", "reporttargetportgroups", "readelementstatus", "inquiry.vpd83"):
         for n in (0, 1, 2, 3, 5, 15, 16, 17, 31, 32, 33, 255, 256, 257):
@@ -80,9 +80,10 @@ def rmw_sites(f, v, b):
         st_sites(f.body, (), 0)
     elif isinstance(f, D.ModeSense):
         base = 8 if f.ten else 4
-        p = v["mode_pages"][0]
-        key = (p["page_code"], p.get("sub_page_code") if p["spf"] else None)
-        st_sites(D.MODE_PAGES[key], ("mode_pages", 0), base)
+        for i, p in enumerate(v["mode_pages"]):
+            key = (p["page_code"], p.get("sub_page_code") if p["spf"] else None)
+            st_sites(D.MODE_PAGES[key], ("mode_pages", i), base)
+            base += D.MODE_PAGES[key].size
         hdr = D.MODE_HDR10 if f.ten else D.MODE_HDR6
         st_sites(hdr, (), 0, skip=("mode_data_length", "block_descriptor_length", "longlba"))
     elif f.name == "getlbastatus":
